@@ -508,9 +508,16 @@ where
                         });
                         match result {
                             Ok(()) => {}
-                            Err(TestError::Fail(_reason, shrunk)) => {
-                                let (clause, detail, original, trace) =
-                                    first.lock().unwrap().clone().expect("failure recorded");
+                            Err(TestError::Fail(reason, shrunk)) => {
+                                let Some((clause, detail, original, trace)) = first.lock().unwrap().clone() else {
+                                    // the check itself panicked: infrastructure, not a verdict
+                                    stop.store(true, Ordering::SeqCst);
+                                    shared.lock().unwrap().notes.push(format!(
+                                        "INFRASTRUCTURE: worker {w}: the check panicked outside its oracle: {reason}; case {}",
+                                        serde_json::to_string(&shrunk).unwrap_or_default()
+                                    ));
+                                    return;
+                                };
                                 // is the shrunk case reliable?
                                 let mut reproduced = 0;
                                 let mut shrunk_trace = vec![];
@@ -623,6 +630,10 @@ where
             println!("{l}");
         }
         return 1;
+    }
+    if let Some(n) = sh.notes.iter().find(|n| n.starts_with("INFRASTRUCTURE")) {
+        println!("inconclusive: {n}");
+        return 2;
     }
     if distinct < spec.min_nontrivial {
         println!(
